@@ -89,6 +89,12 @@ def nontrivial(op, args, real):
     return " ".join(args["argv"])
 
 
+def with_dump(body):
+    """body followed by options that print every value left on the stack, top first (the depth is the manual's)"""
+    r = fmtspec.run(body)
+    return body + [("o", "-"), ("U", None)] * r.get("depth", 0) if r["status"] == 0 else body + [("o", "-")]
+
+
 def gen(ctx):
     rng = ctx.rng
     V = opt_variants()
@@ -110,8 +116,23 @@ def gen(ctx):
     bag = [v for v in V for _ in range(weights.get(v[0], 1))]
     for _ in range(20000 if not th else 200000):
         n = rng.randrange(4, 13)
-        prog = [("j", rng.choice(VALUES[7:]))] + [rng.choice(bag) for _ in range(n)] + [("Q", None), ("o", "-")]
-        progs.append(prog)
+        body = [("j", rng.choice(VALUES[7:]))] + [rng.choice(bag) for _ in range(n)]
+        progs.append(body + [("Q", None), ("o", "-")] if rng.random() < 0.5 else with_dump(body))
+    # copies must be independent of their originals at every depth ("deep copy", "values are otherwise unchanged"):
+    # copy or query a nested value, walk into the copy, mutate there, then print every value left on the stack
+    nested = [{"a": {"b": 1}}, [[1, 2], 3], {"a": [1, {"b": [2, 3]}], "c": {"d": {}}}, [[[0]], {"k": [1]}], {"a": {"b": {"c": [1, 2, 3]}}}]
+    walks = {0: [[("g", "a")], [("g", "a"), ("g", "b")], [("g", "c"), ("g", "d")], [("g", "a"), ("g", "1")], [("g", "a"), ("g", "1"), ("g", "b")],
+                 [("g", "a"), ("g", "b"), ("g", "c")]],
+             1: [[("g", "0")], [("g", "0"), ("g", "0")], [("g", "1")], [("g", "1"), ("g", "k")], [("g", "-1")]]}
+    muts = [[("j", 2), ("s", "b")], [("j", 9), ("s", "0")], [("d", "b")], [("d", "0")], [("d", "-1")], [("t", 0)], [("t", 1)], [("t", -1)], [("e", None)],
+            [("j", 7), ("a", None)], [("j", [7]), ("x", None)], [("j", {"z": 1}), ("x", None)], [("j", 7), ("i", 0)], [("j", 7), ("s", "zz")]]
+    for v in nested:
+        for w in walks[1 if isinstance(v, list) else 0]:
+            for m in muts:
+                for cp in ("c", "Q"):
+                    progs.append(with_dump([("j", v), (cp, None)] + (w if cp == "c" else [("g", "0")] + w) + m))
+                    # and mutate the original, then look at the copy
+                    progs.append(with_dump([("j", v), (cp, None), ("M", 1)] + (w if cp == "c" else w) + m))
     # the manual's own examples
     progs.append([("j", {}), ("c", None), ("s", "unprotected"), ("q", "A128KW"), ("s", "alg"), ("U", None), ("U", None), ("o", "-")])
     progs.append([("j", {"protected": "eyJhbGciOiJBMTI4S1cifQ"}), ("O", None), ("g", "protected"), ("y", None), ("O", None), ("g", "alg"), ("S", None), ("u", "-")])
